@@ -127,7 +127,7 @@ def make(n_sends: int, concurrent: int, auto_reconnect: bool):
                 try:
                     await tunnel.send_cemi(make_cemi(i))
                     results[i] = ("ok", started, loop.time())
-                except Exception as exc:  # noqa: BLE001
+                except BaseException as exc:  # noqa: BLE001
                     results[i] = (type(exc).__name__, started, loop.time())
                 st["events"].append((loop.time(), "SendDone", i, results[i][0]))
 
